@@ -153,6 +153,8 @@ TYPE_CASES = [
     ('::std::collections::HashMap<u8, Vec<u8>>', 'Option<Box<u32>>', "&'static str", '::std::string::String', '::std::string::String::new()', '"x"'),
     ('(u8, u16)', 'crate::D0', '[Option<u8>; 2]', "Vec<(u8, &'static str)>", 'Vec::new()', '[None, Some(1u8)]'),
     (None, '::core::option::Option<(u8, [u16; 2])>', 'Box<dyn Fn(u8) -> u8 + Send + Sync>', '&\'static [u8]', '&[1u8, 2u8]', None),
+    # a borrowed context that implements Default, unit data (a slot used as a presence marker), a borrowed payload
+    ("&'static str", '()', "&'static [u8]", "&'static str", '"p"', '&[1u8]'),
 ]
 
 
@@ -189,11 +191,53 @@ def types_module(i, case, is_async):
     if dbv and not box_default:
         L.append('fn p_set(d: &mut %s) { let _ = d.set_b_data(%s); }' % (DM, dbv))
     L.append('fn p_conv(m: %s) -> Result<%s, %s> { m.into_dynamic().into_a() }' % (MT('A'), MT('A'), DM))
+    L.append('fn p_presence(m: &%s) -> bool { m.state_data_a().is_some() }' % MT('B' if not box_default else 'K'))
+    if cty:
+        L.append('fn p_default() -> %s { <%s as Default>::default() }' % (DM, DM))
     return ('ty%d%s' % (i, 'a' if is_async else 's'), '\n'.join(L) + '\n', dsl)
 
 
+WRAPPED_MOD = '''#![allow(non_camel_case_types, non_snake_case, dead_code, unused_variables, unused_mut, unused_imports, private_interfaces)]
+use state_machines::state_machine;
+#[derive(Debug, Default)] pub struct Pl(pub u8);
+macro_rules! stamp {
+    ($name:ident, $ev:ident, $guard:ident, $cb:ident, $from:ident, $to:ident, $is_async:tt) => {
+        state_machine! {
+            name: $name, initial: $from, async: $is_async, dynamic: true,
+            states: [$from, $to(Pl)],
+            events { $ev { payload: Pl, guards: [$guard], before: [$cb], after: [$cb], around: [wrap], transition: { from: $from, to: $to, unless: [never] } } }
+        }
+    };
+}
+pub mod s {
+    use super::*;
+    stamp!(Ws, launch, ready, note, Pad, Sky, false);
+    impl<C, S> Ws<C, S> {
+        fn ready(&self, _c: &C, _p: &Pl) -> bool { true }
+        fn never(&self, _c: &C, _p: &Pl) -> bool { false }
+        fn note(&self, _p: &Pl) {}
+        fn wrap(&self, _s: state_machines::core::AroundStage) -> state_machines::core::AroundOutcome<Pad> { state_machines::core::AroundOutcome::Proceed }
+    }
+    pub fn drive(m: Ws<u8, Pad>) -> bool { m.launch(Pl(1)).is_ok() }
+    pub fn dynamic(d: &mut DynamicWs<u8>) -> bool { d.handle(WsEvent::Launch(Pl(2))).is_ok() }
+}
+pub mod a {
+    use super::*;
+    stamp!(Wa, launch, ready, note, Pad, Sky, true);
+    impl<C, S> Wa<C, S> {
+        async fn ready(&self, _c: &C, _p: &Pl) -> bool { true }
+        async fn never(&self, _c: &C, _p: &Pl) -> bool { false }
+        async fn note(&self, _p: &Pl) {}
+        async fn wrap(&self, _s: state_machines::core::AroundStage) -> state_machines::core::AroundOutcome<Pad> { state_machines::core::AroundOutcome::Proceed }
+    }
+    pub async fn drive(m: Wa<u8, Pad>) -> bool { m.launch(Pl(1)).await.is_ok() }
+    pub async fn dynamic(d: &mut DynamicWa<u8>) -> bool { d.handle(WaEvent::Launch(Pl(2))).await.is_ok() }
+}
+'''
+
+
 def k3_types(ctx):
-    mods, dsls = [], {}
+    mods, dsls = [('tywrapped', WRAPPED_MOD)], {'tywrapped': 'the definition stamped out by macro_rules! with every identifier passed in (module tywrapped)'}
     for i, case in enumerate(TYPE_CASES):
         for is_async in (False, True):
             nm, src, dsl = types_module(i, case, is_async)
@@ -205,7 +249,7 @@ def k3_types(ctx):
     problems, bad = [], {}
     for dg in diags:
         for (fn, ln) in dg['locs']:
-            m = re.match(r'src/(ty\d+[as])\.rs', fn)
+            m = re.match(r'src/(ty\d+[as]|tywrapped)\.rs', fn)
             if m:
                 bad.setdefault(m.group(1), []).append('%s %s' % (dg['code'], dg['msg'][:200]))
                 break
@@ -213,7 +257,7 @@ def k3_types(ctx):
         problems.append({'dsl': dsls[nm], 'what': 'definition with compound context/data/payload types does not compile as documented: ' + msgs[0]})
     if rc != 0 and not diags:
         problems.append({'dsl': None, 'what': 'cargo failed: ' + se[-500:]})
-    return {'ok': True, 'n': len(mods), 'problems': problems, 'sample': dsls[mods[0][0]]}
+    return {'ok': True, 'n': len(mods), 'problems': problems, 'sample': dsls[mods[1][0]]}
 
 # ---------------------------------------------------------------- C17: #![no_std], zero-sized markers, machine = context
 
@@ -241,6 +285,13 @@ state_machine! {
     %s
 }
 pub fn drive() -> &'static str { let mut d = DynamicM::new(1u8); let _ = d.handle(MEvent::Go); d.current_state() }
+pub mod names { pub const CHECK: &str = "check"; }
+pub fn aborts() -> [state_machines::core::AroundOutcome<A>; 4] {
+    use state_machines::core::{TransitionContext, TransitionErrorKind};
+    let c = || TransitionContext::new(A, A, "go");
+    [state_machines::abort_guard!(c(), some_guard), state_machines::abort_guard!(c(), "literal"),
+     state_machines::abort_guard!(c(), names::CHECK), state_machines::abort_with!(c(), TransitionErrorKind::ActionFailed { action: "act" })]
+}
 ''' % PANIC_PROBE_DSL
 
 
@@ -316,10 +367,11 @@ ADV_TYPES = ['a', 'b', 'e', 'A_', 'AB', 'Ab', 'C', 'S', 'T', 'Ok', 'Err', 'Some'
              'PhantomData', 'GuardError', 'DynamicError', 'AroundStage', 'M', 'MEvent', 'DynamicM', 'AnyMState', 'Machine',
              'State', 'Event', 'Inner', 'Ctx2', 'A1', 'X',
              # words that are keywords of the Ruby gem's DSL or of neighbouring libraries: they are ordinary identifiers here
-             'any', 'all', 'same', 'nil', 'except', 'loopback', 'initial_', 'state', 'event']
+             'any', 'all', 'same', 'nil', 'except', 'loopback', 'initial_', 'state', 'event', 'Any', 'All', 'Same', '_Parked', 'Idle_']
 ADV_VALUES = ['x_y', 'step_2', 'go_2_x', 'a_1', 'zz_top', 'b', 'new', 'handle', 'name', 'into_dynamic', 'current_state', 'ok', 'err', 'default', 'clone', 'inner', 'ctx',
               'payload', 'state', 'event', 'm', 'self_', 'new_machine', 'old_machine', 'machine', 'data', 'other', 'current',
-              'fmt', 'eq', 'x', 'c', 's', 'a_data', 'state_data_a', 'into_a', 'set_a_data', 'callback_name']
+              'fmt', 'eq', 'x', 'c', 's', 'a_data', 'state_data_a', 'into_a', 'set_a_data', 'callback_name',
+              'journal_sync', 'check_async', '_audit', '_x', 'x_', 'is_ok', 'r#try', 'r#match']
 
 
 def rename_defn(d, mapping):
@@ -387,7 +439,7 @@ def rename_variants(ctx):
             pool = ADV_TYPES if role in ('state', 'super', 'name') else ADV_VALUES
             if ctx.tier == 'quick':
                 rnd = random.Random('%d|%s|%d' % (ctx.seed, role, bi))
-                must = [x for x in pool if x in ('a', 'b', 'e', 'AB', 'Ab', 'C', 'S', 'T', 'Ok', 'Err', 'Some', 'None', 'Result', 'Option', 'Default', 'new', 'handle', 'ctx', 'inner', 'into_dynamic', 'any', 'all',
+                must = [x for x in pool if x in ('a', 'b', 'e', 'AB', 'Ab', 'C', 'S', 'T', 'Ok', 'Err', 'Some', 'None', 'Result', 'Option', 'Default', 'new', 'handle', 'ctx', 'inner', 'into_dynamic', 'any', 'all', 'Same', '_Parked', 'journal_sync', '_audit', 'r#try',
                                                  'x_y', 'step_2', 'go_2_x', 'a_1', 'zz_top', 'b')]
                 rest = [x for x in pool if x not in must]
                 pool = must + rnd.sample(rest, min(6, len(rest)))
@@ -568,6 +620,14 @@ def run(ctx, prop, what, rep):
         for kp in ctx.stage('k3_known_probes', lambda: k3_known_probes(ctx)):
             rep.violate('k3', 'definition within the documented rules does not compile (%s): %s' % (kp['key'], kp['rustc'][:1]),
                         {'kind': 'k3-known-probe', 'key': kp['key'], 'dsl': kp['dsl']})
+    elif what == 'types':
+        t = ctx.stage('k3_types', lambda: k3_types(ctx))
+        rep.cov['k3_compound_types'] = {'definitions_compiled_with_type_probes': t['n'], 'problems': len(t['problems'])}
+        rep.evals += t['n']
+        rep.distinct += t['n']
+        rep.samples.append({'k3_types_sample': t['sample']})
+        for p in t['problems'][:6]:
+            rep.violate('k3', p['what'], {'kind': 'k3-types', 'dsl': p['dsl']})
     elif what == 'nostd':
         r = ctx.stage('k3_nostd', lambda: k3_nostd(ctx))
         if not r['ok']:
